@@ -527,3 +527,189 @@ Proof.
            ++ intros H'. apply Hnc. apply in_or_app. right. exact H'.
         -- apply Hb in H. cbn [snd] in H. apply (mj_lex_lt_0 _ _ v v' Hav Hav'). lra.
 Qed.
+
+(* ================================================================ the plus rule, n seats *)
+Theorem mj_plus_seats_rule cf votes n sc med r :
+  (1 <= n)%nat -> corrected_scores cf votes = inl sc -> aggregate FMedianLow sc = inl med ->
+  majority_judgment true cf votes n = inl r ->
+  length r = Nat.min n (length sc) /\
+  forall c vc d c' vc' d', In (c, vc) med -> In (c, d) sc -> In (c', vc') med -> In (c', d') sc -> vc' == vc ->
+    ~ In (Cand c') r ->
+    (In (Cand c) r -> (counts_over d' vc < counts_over d vc)%Z) /\
+    (forall T, In (TieR T) r -> In c T ->
+       (counts_over d' vc <= counts_over d vc)%Z /\ (In c' T -> counts_over d' vc = counts_over d vc)).
+Proof.
+  intros Hn Hsc Ea. pose proof (corrected_scores_nodup _ _ _ Hsc) as Hnd.
+  unfold majority_judgment. rewrite Hsc, Ea.
+  pose proof (aggregate_keys _ _ _ Ea) as Hkeys.
+  assert (Hndm : NoDup (map fst med)) by (rewrite Hkeys; exact Hnd).
+  assert (Hlenm : length med = length sc) by (rewrite <- (map_length fst med), Hkeys, map_length; reflexivity).
+  destruct (gnb_cases med n Hn Hndm) as [(Hct & Hplain & Hcut & Hlen & Hndb)|(above & level & below & thr & k & Hp & Ha & Hl & Hb & Hbest & Hlen & Hk)].
+  - rewrite (last_tie_plain _ Hplain). intros [= <-]. split; [rewrite Hlen, Hlenm; reflexivity|].
+    intros c vc d c' vc' d' Hv Hd Hv' Hd' Heq Hnc. split.
+    + intros Hc. pose proof (Hcut _ _ _ _ Hc Hv Hv' Hnc). lra.
+    + intros T HT. destruct (Hplain _ HT) as (x & Hx). discriminate.
+  - rewrite Hbest, last_tie_app, count_tie_app.
+    replace (length (map cand_of above ++ repeat (TieR (map fst level)) (S k)) - S k)%nat with (length (map (@cand_of C Q) above))
+      by (rewrite app_length, repeat_length; lia).
+    rewrite firstn_app, firstn_all, Nat.sub_diag, firstn_O, app_nil_r.
+    set (T := map fst level) in *. set (sub := filter (fun cd : C * cscores => cmem (fst cd) T) sc).
+    destruct (mj_plus sub (S k)) as [r'|e] eqn:Er; [|discriminate]. intros [= <-].
+    assert (Hnd' : NoDup (map fst sub)) by (apply filter_keys_NoDup_gen, Hnd).
+    destruct (perm_parts _ _ _ _ Hndm Hp) as (Hnda & Hndl & Hlv).
+    assert (Hsplit : forall c v, In (c, v) med -> In (c, v) above \/ In (c, v) level \/ In (c, v) below).
+    { intros c v H. apply (Permutation_in _ (Permutation_sym Hp)) in H.
+      apply in_app_or in H. destruct H as [H|H]; [left; exact H|]. apply in_app_or in H. tauto. }
+    assert (Hback : forall c v, In (c, v) above \/ In (c, v) level \/ In (c, v) below -> In (c, v) med).
+    { intros c v H. eapply Permutation_in; [exact Hp|]. apply in_or_app. destruct H as [H|[H|H]]; [left; exact H|right|right];
+        apply in_or_app; [left|right]; exact H. }
+    assert (Hsub_in : forall x dx, In (x, dx) sub <-> In (x, dx) sc /\ In x T).
+    { intros x dx. unfold sub. rewrite filter_In. cbn [fst]. rewrite cmem_In. tauto. }
+    assert (HTthr : forall x vx, In (x, vx) med -> In x T -> vx == thr).
+    { intros x vx Hx Ht. unfold T in Ht. apply in_map_iff in Ht. destruct Ht as ([x0 v0] & Hx0 & Hlv0). cbn [fst] in Hx0. subst x0.
+      rewrite (NoDup_keys_val _ _ _ _ Hndm Hx (Hback _ _ (or_intror (or_introl Hlv0)))). apply (Hl _ Hlv0). }
+    assert (Hge : (length level <= length sub)%nat).
+    { apply keys_incl_length; [exact Hndl|]. intros c Hc. destruct (Hlv c Hc) as (Hm & _).
+      rewrite Hkeys in Hm. apply in_map_iff in Hm. destruct Hm as ([c0 d] & Hc0 & Hd). cbn [fst] in Hc0. subst c0.
+      apply in_map_iff. exists (c, d). split; [reflexivity|]. apply Hsub_in. split; [exact Hd|exact Hc]. }
+    assert (Hbig : (length above + length level <= length sc)%nat).
+    { rewrite <- Hlenm, <- (Permutation_length Hp), !app_length. lia. }
+    (* the counts *)
+    unfold mj_plus in Er. destruct sub as [|[c0 d0] sub'] eqn:Esub; [discriminate|]. rewrite <- Esub in *.
+    destruct (aggregate_one FMedianLow d0) as [m0|e] eqn:Em0; [|discriminate]. injection Er as Er.
+    set (cnt := map (fun cd : C * cscores => (fst cd, inject_Z (counts_over (snd cd) m0))) sub) in *.
+    assert (Hnd_cnt : NoDup (map fst cnt)) by (unfold cnt; rewrite map_map; exact Hnd').
+    assert (Hlen_cnt : length cnt = length sub) by (unfold cnt; apply map_length).
+    assert (Hm0 : m0 == thr).
+    { assert (H0 : In (c0, d0) sub) by (rewrite Esub; left; reflexivity). apply Hsub_in in H0. destruct H0 as [H0 H0t].
+      destruct (medians_in _ _ _ _ Hnd Ea H0) as (v1 & Hv1 & Ha1 & _). rewrite Em0 in Ha1. injection Ha1 as ->.
+      apply (HTthr _ _ Hv1 H0t). }
+    assert (Hcnt_of : forall x dx, In (x, dx) sc -> In x T -> In (x, inject_Z (counts_over dx m0)) cnt).
+    { intros x dx Hx Ht. unfold cnt. apply in_map_iff. exists (x, dx). split; [reflexivity|]. apply Hsub_in. tauto. }
+    assert (Hr'T : forall x, In (Cand x) r' -> In x T).
+    { intros x Hx. rewrite <- Er in Hx. apply get_n_best_cand_in in Hx. unfold cnt in Hx. rewrite map_map in Hx. cbn [fst] in Hx.
+      apply in_map_iff in Hx. destruct Hx as ([x0 dx] & Hx0 & Hdx). cbn [fst] in Hx0. subst x0. apply Hsub_in in Hdx. tauto. }
+    (* a rival with the same median as a member of the tie that is not listed is a member of the tie, not listed by the breaker *)
+    assert (Hrival : forall c vc c' vc' d', In (c, vc) med -> In c T -> In (c', vc') med -> In (c', d') sc -> vc' == vc ->
+              ~ In (Cand c') (map cand_of above ++ r') ->
+              vc == thr /\ In (c', inject_Z (counts_over d' m0)) cnt /\ ~ In (Cand c') r').
+    { intros c vc c' vc' d' Hv HcT Hv' Hd' Heq Hnc. pose proof (HTthr _ _ Hv HcT) as Hvthr. split; [exact Hvthr|].
+      split; [|intros H; apply Hnc, in_or_app; right; exact H]. apply Hcnt_of; [exact Hd'|].
+      destruct (Hsplit _ _ Hv') as [H|[H|H]].
+      - apply Ha in H. cbn [snd] in H. lra.
+      - unfold T. apply in_map_iff. exists (c', vc'). auto.
+      - apply Hb in H. cbn [snd] in H. lra. }
+    destruct (gnb_cases cnt (S k) (le_n_S _ _ (Nat.le_0_l k)) Hnd_cnt)
+      as [(Hct2 & Hplain2 & Hcut2 & Hlen2 & _)|(above2 & level2 & below2 & thr2 & k2 & Hp2 & Ha2 & Hl2 & Hb2 & Hbest2 & Hlen2 & Hk2)];
+      rewrite Er in *.
+    + split; [rewrite app_length, map_length, Hlen2, Hlen_cnt; lia|].
+      intros c vc d c' vc' d' Hv Hd Hv' Hd' Heq Hnc. split.
+      * intros Hc. apply in_app_or in Hc. destruct Hc as [Hc|Hc].
+        -- exfalso. apply in_map_iff in Hc. destruct Hc as ([c1 v1] & Hc1 & Hin1). unfold cand_of in Hc1. cbn [fst] in Hc1. injection Hc1 as ->.
+           rewrite (NoDup_keys_val _ _ _ _ Hndm Hv (Hback _ _ (or_introl Hin1))) in *. apply Ha in Hin1. cbn [snd] in Hin1.
+           destruct (Hsplit _ _ Hv') as [H|[H|H]].
+           ++ apply Hnc. apply in_or_app. left. apply in_map_iff. exists (c', vc'). auto.
+           ++ apply Hl in H. cbn [snd] in H. lra.
+           ++ apply Hb in H. cbn [snd] in H. lra.
+        -- pose proof (Hr'T _ Hc) as HcT. destruct (Hrival _ _ _ _ _ Hv HcT Hv' Hd' Heq Hnc) as (Hvthr & Hc'cnt & Hnc').
+           pose proof (Hcut2 _ _ _ _ Hc (Hcnt_of _ _ Hd HcT) Hc'cnt Hnc') as Hlt. rewrite <- Zlt_Qlt in Hlt.
+           assert (Hmv : m0 == vc) by lra.
+           rewrite <- (counts_over_compat d' _ _ Hmv), <- (counts_over_compat d _ _ Hmv). exact Hlt.
+      * intros T2 HT2. exfalso. apply in_app_or in HT2. destruct HT2 as [H|H].
+        -- apply in_map_iff in H. destruct H as (it & Hit & _). discriminate.
+        -- destruct (Hplain2 _ H) as (x & Hx). discriminate.
+    + clear Er. subst r'.
+      assert (Hsplit2 : forall c v, In (c, v) cnt -> In (c, v) above2 \/ In (c, v) level2 \/ In (c, v) below2).
+      { intros c v H. apply (Permutation_in _ (Permutation_sym Hp2)) in H.
+        apply in_app_or in H. destruct H as [H|H]; [left; exact H|]. apply in_app_or in H. tauto. }
+      assert (Hback2 : forall c v, In (c, v) above2 \/ In (c, v) level2 \/ In (c, v) below2 -> In (c, v) cnt).
+      { intros c v H. eapply Permutation_in; [exact Hp2|]. apply in_or_app. destruct H as [H|[H|H]]; [left; exact H|right|right];
+          apply in_or_app; [left|right]; exact H. }
+      (* whoever is not listed plainly by the breaker has at most thr2 *)
+      assert (Hlow : forall x w, In (x, w) cnt -> ~ In (Cand x) (map cand_of above2 ++ repeat (TieR (map fst level2)) (S k2)) ->
+                (w <= thr2) /\ (In x (map fst level2) -> w == thr2)).
+      { intros x w Hx Hnx. destruct (Hsplit2 _ _ Hx) as [H|[H|H]].
+        - exfalso. apply Hnx. apply in_or_app. left. apply in_map_iff. exists (x, w). auto.
+        - apply Hl2 in H. cbn [snd] in H. split; [lra|intros _; exact H].
+        - split; [apply Hb2 in H; cbn [snd] in H; lra|]. intros Hx2. apply in_map_iff in Hx2. destruct Hx2 as ([x0 w0] & Hx0 & Hw0).
+          cbn [fst] in Hx0. subst x0. rewrite (NoDup_keys_val _ _ _ _ Hnd_cnt Hx (Hback2 _ _ (or_intror (or_introl Hw0)))).
+          apply (Hl2 _ Hw0). }
+      split; [rewrite !app_length, !map_length, repeat_length; lia|].
+      intros c vc d c' vc' d' Hv Hd Hv' Hd' Heq Hnc. split.
+      * intros Hc. apply in_app_or in Hc. destruct Hc as [Hc|Hc].
+        -- exfalso. apply in_map_iff in Hc. destruct Hc as ([c1 v1] & Hc1 & Hin1). unfold cand_of in Hc1. cbn [fst] in Hc1. injection Hc1 as ->.
+           rewrite (NoDup_keys_val _ _ _ _ Hndm Hv (Hback _ _ (or_introl Hin1))) in *. apply Ha in Hin1. cbn [snd] in Hin1.
+           destruct (Hsplit _ _ Hv') as [H|[H|H]].
+           ++ apply Hnc. apply in_or_app. left. apply in_map_iff. exists (c', vc'). auto.
+           ++ apply Hl in H. cbn [snd] in H. lra.
+           ++ apply Hb in H. cbn [snd] in H. lra.
+        -- pose proof (Hr'T _ Hc) as HcT. destruct (Hrival _ _ _ _ _ Hv HcT Hv' Hd' Heq Hnc) as (Hvthr & Hc'cnt & Hnc').
+           apply in_app_or in Hc. destruct Hc as [Hc|Hc]; [|apply repeat_spec in Hc; discriminate].
+           apply in_map_iff in Hc. destruct Hc as ([c1 w1] & Hc1 & Hin1). unfold cand_of in Hc1. cbn [fst] in Hc1. injection Hc1 as ->.
+           pose proof (NoDup_keys_val _ _ _ _ Hnd_cnt (Hcnt_of _ _ Hd HcT) (Hback2 _ _ (or_introl Hin1))) as Hw1.
+           apply Ha2 in Hin1. cbn [snd] in Hin1. rewrite <- Hw1 in Hin1.
+           destruct (Hlow _ _ Hc'cnt Hnc') as (Hle & _).
+           assert (Hlt : inject_Z (counts_over d' m0) < inject_Z (counts_over d m0)) by lra. rewrite <- Zlt_Qlt in Hlt.
+           assert (Hmv : m0 == vc) by lra.
+           rewrite <- (counts_over_compat d' _ _ Hmv), <- (counts_over_compat d _ _ Hmv). exact Hlt.
+      * intros T2 HT2 HcT2. apply in_app_or in HT2. destruct HT2 as [H|H].
+        { apply in_map_iff in H. destruct H as (it & Hit & _). discriminate. }
+        apply in_app_or in H. destruct H as [H|H]; [apply in_map_iff in H; destruct H as (it & Hit & _); discriminate|].
+        apply repeat_spec in H. injection H as ->.
+        (* c is a member of the breaker's tie, so of the median tie *)
+        assert (HcT : In c T).
+        { apply in_map_iff in HcT2. destruct HcT2 as ([c1 w1] & Hc1 & Hw1). cbn [fst] in Hc1. subst c1.
+          pose proof (Hback2 _ _ (or_intror (or_introl Hw1))) as Hin. unfold cnt in Hin. apply in_map_iff in Hin.
+          destruct Hin as ([c2 d2] & Hc2 & Hd2). cbn [fst snd] in Hc2. injection Hc2 as -> _. apply Hsub_in in Hd2. tauto. }
+        destruct (Hrival _ _ _ _ _ Hv HcT Hv' Hd' Heq Hnc) as (Hvthr & Hc'cnt & Hnc').
+        assert (Hcw : inject_Z (counts_over d m0) == thr2).
+        { apply in_map_iff in HcT2. destruct HcT2 as ([c1 w1] & Hc1 & Hw1). cbn [fst] in Hc1. subst c1.
+          rewrite (NoDup_keys_val _ _ _ _ Hnd_cnt (Hcnt_of _ _ Hd HcT) (Hback2 _ _ (or_intror (or_introl Hw1)))). apply (Hl2 _ Hw1). }
+        destruct (Hlow _ _ Hc'cnt Hnc') as (Hle & Heq2).
+        assert (Hmv : m0 == vc) by lra.
+        rewrite <- (counts_over_compat d' _ _ Hmv), <- (counts_over_compat d _ _ Hmv). split.
+        -- rewrite Zle_Qle. lra.
+        -- intros Hc'T2. apply Heq2 in Hc'T2. apply inject_Z_injective. lra.
+Qed.
+
+(* ================================================================ the hypothesis as a boolean *)
+Definition cs_nonnegb (d : cscores) : bool := forallb (fun sn : Q * Z => (0 <=? snd sn)%Z) d.
+Fixpoint cs_distinctb (d : cscores) : bool :=
+  match d with
+  | [] => true
+  | sn :: t => forallb (fun sn' : Q * Z => negb (Qeq_bool (fst sn') (fst sn))) t && cs_distinctb t
+  end.
+Definition cs_okb (cd : C * cscores) : bool := cs_nonnegb (snd cd) && cs_distinctb (snd cd).
+
+Lemma cs_distinctb_ok d : cs_distinctb d = true -> cs_distinct d.
+Proof.
+  induction d as [|sn t IH]; cbn [cs_distinctb cs_distinct]; [trivial|]. intros H. apply andb_true_iff in H. destruct H as (H1 & H2).
+  split; [|apply IH, H2]. intros sn' Hin He. rewrite forallb_forall in H1. specialize (H1 _ Hin).
+  apply negb_true_iff in H1. apply Qeq_bool_iff in He. congruence.
+Qed.
+
+Lemma cs_okb_ok sub : forallb cs_okb sub = true -> Forall cs_ok sub.
+Proof.
+  intros H. rewrite forallb_forall in H. apply Forall_forall. intros cd Hin. specialize (H _ Hin). unfold cs_okb in H.
+  apply andb_true_iff in H. destruct H as (H1 & H2). split; [|apply cs_distinctb_ok, H2].
+  unfold cs_nonneg. apply Forall_forall. intros sn Hsn. unfold cs_nonnegb in H1. rewrite forallb_forall in H1.
+  specialize (H1 _ Hsn). lia.
+Qed.
+
+(* two seats, three candidates on the median 1 (grades A = 0,0,1,2,2  B = 0,1,1,1,1  C = 0,1,1,1,2): after one removal A is
+   behind (0) and B, C (1) take the two seats *)
+Definition ex_seats_cfg : score_cfg :=
+  {| sc_fn := FMedianLow; sc_unscored := UNone; sc_min_count := 0%Z; sc_trunc := 0%Q; sc_bottom := 0%Q |}.
+Definition ex_seats_votes : sprofile :=
+  let b (x y z : Z) : sballot * Z := ([(1%positive, inject_Z x); (2%positive, inject_Z y); (3%positive, inject_Z z)], 1%Z) in
+  [b 0 0 0; b 0 1 1; b 1 1 1; b 2 1 1; b 2 1 2]%Z.
+
+Lemma mj_seats_example :
+  majority_judgment false ex_seats_cfg ex_seats_votes 2 = inl [Cand 2%positive; Cand 3%positive] /\
+  exists sc, corrected_scores ex_seats_cfg ex_seats_votes = inl sc /\ Forall cs_ok sc /\
+    mj_seq 0 (dget_or sc 1%positive []) = Some 1 /\ mj_seq 0 (dget_or sc 2%positive []) = Some 1 /\
+    mj_seq 1 (dget_or sc 1%positive []) = Some 0 /\ mj_seq 1 (dget_or sc 2%positive []) = Some 1.
+Proof.
+  split; [vm_compute; reflexivity|]. eexists. split; [vm_compute; reflexivity|]. split; [apply cs_okb_ok; vm_compute; reflexivity|].
+  repeat split; vm_compute; reflexivity.
+Qed.
